@@ -1,5 +1,72 @@
-From Coq Require Import List NArith.
-From FV Require Import Mem.Shard Mem.Cache.
-Theorem c05_placeholder : usage (init_shard 5) = 0%N.
-Proof. reflexivity. Qed.
-Print Assumptions c05_placeholder.
+(* C05  Memory usage accounting is exact and capacity-bounded without over-eviction.
+   Statements only; proofs are in Mem/ShardInv.v, Mem/ShardRefs.v, Mem/ShardThms.v. *)
+From Coq Require Import List NArith Bool.
+From FV Require Import Mem.Shard Mem.Cache Mem.ShardRefs Mem.ShardThms.
+Import ListNotations.
+Open Scope N_scope.
+
+(* usage() = summed weight of the findable entries, entries() = their number: every op sequence,
+   every capacity, every admissible choice of victims (hence every eviction algorithm) *)
+Theorem c05_exact : forall c cap ops s,
+  good c -> run c (init_shard cap) ops = Some s ->
+  usage s = sum_weights s /\ entries s = N.of_nat (length (findable s)).
+Proof. exact exact_reach. Qed.
+Print Assumptions c05_exact.
+
+(* the same for a whole cache: any number of shards, any user hash function *)
+Theorem c05_exact_cache : forall hash c total n ops cs,
+  good c -> crun hash c (init_cache total n) ops = Some cs ->
+  cusage cs = fold_right (fun s a => sum_weights s + a) 0 cs /\
+  centries cs = fold_right (fun s a => N.of_nat (length (findable s)) + a) 0 cs.
+Proof.
+  intros hash c total n ops cs Hg H. apply (cache_exact c).
+  eapply CInv_crun; eauto. apply CInv_init.
+Qed.
+Print Assumptions c05_exact_cache.
+
+(* shard capacities add up to the configured capacity (shards > capacity included) *)
+Theorem c05_split : forall total n, (0 < n)%nat -> ccapacity (init_cache total n) = total.
+Proof. exact init_cache_capacity. Qed.
+Print Assumptions c05_split.
+
+(* an eviction loop accepted by the model evicts only while usage exceeds the target, never a
+   pinned or absent record, and stops as soon as usage no longer exceeds it (or nothing evictable is left) *)
+Theorem c05_minimal : forall c target vs s s',
+  evict_oracle c target vs s = Some s' <-> evicts c target s vs s'.
+Proof. exact evict_oracle_spec. Qed.
+Print Assumptions c05_minimal.
+
+Theorem c05_bounded : forall c s k v w hsh low h vs s',
+  insert c s k v w hsh low false h vs = Some s' ->
+  capacity s' = capacity s /\
+  (usage s' <= capacity s' \/ capacity s' < w \/
+   forall k' i', In (k', i') (idx s') -> i' <> length (arena s) -> In i' (pinned s')).
+Proof. exact insert_bounded. Qed.
+Print Assumptions c05_bounded.
+
+Theorem c05_clear : forall c s, bug_clear c = false ->
+  usage (clear c s) = 0 /\ entries (clear c s) = 0 /\ idx (clear c s) = [].
+Proof. exact clear_zero. Qed.
+Print Assumptions c05_clear.
+
+Theorem c05_resize : forall c s cap vs s',
+  resize c s cap vs = Some s' ->
+  capacity s' = cap /\ (usage s' <= cap \/ forall k i, In (k, i) (idx s') -> In i (pinned s')).
+Proof. exact resize_bounded. Qed.
+Print Assumptions c05_resize.
+
+(* the model of the pinned snapshot (clear keeps usage; defect F4, fixed by 62ef163) violates exactness *)
+Theorem c05_exact_refuted_F4 :
+  exists ops s, run (mkCfg false true true false) (init_shard 2) ops = Some s /\ usage s <> sum_weights s.
+Proof.
+  exists [OInsert 0 1 1 0 false false 1 []; OClear]. eexists. split; [vm_compute; reflexivity|].
+  vm_compute. discriminate.
+Qed.
+Print Assumptions c05_exact_refuted_F4.
+
+(* non-vacuity: a reachable state in which an eviction happened and the premises hold *)
+Example c05_nonvacuous :
+  exists s, run (mkCfg false true false false) (init_shard 2)
+              [OInsert 0 1 1 0 false false 1 []; OInsert 1 2 1 1 false false 2 []; OInsert 2 3 1 2 false false 3 [0]] = Some s
+            /\ usage s = 2 /\ findable s = [2; 1].
+Proof. eexists. split; [vm_compute; reflexivity|]. split; reflexivity. Qed.
